@@ -26,6 +26,9 @@ var Props = map[string]PropRunner{
 	"C03c": func(r *Run) { RunE1(r, "C03") },
 	"C04c": func(r *Run) { RunE1(r, "C04") },
 	"C05c": func(r *Run) { RunE1(r, "C05") },
+	// iteration and size-bounded merges on a log shared between tasks
+	"C15c": func(r *Run) { RunE1(r, "C15") },
+	"C16c": func(r *Run) { RunE1(r, "C16") },
 	"C17": func(r *Run) {
 		p := e0Profile("C17", "C17")
 		p.Weights[opAppend] = 40
